@@ -199,8 +199,16 @@ def _alarm(signum, frame):
     raise HangError("watchdog")
 
 
+_HUNG = {}
+
+
 def guarded(o, entry, fn, *args):
     """Run one parse under the watchdog; classify the outcome."""
+    if _HUNG.get(entry, 0) >= 2:
+        # this worker already saw the entry point hang twice: do not spend 30 s on every further input
+        o.cls = "skipped-after-hang"
+        o.nontrivial = False
+        return o
     old = signal.signal(signal.SIGALRM, _alarm)
     signal.alarm(30)
     try:
@@ -211,6 +219,7 @@ def guarded(o, entry, fn, *args):
             signal.alarm(0)
             signal.signal(signal.SIGALRM, old)
     except HangError:
+        _HUNG[entry] = _HUNG.get(entry, 0) + 1
         o.cls = "hang"
         o.viol("%s|hang" % entry, "%s did not terminate within 30 s" % entry)
     except ALLOWED as e:
